@@ -145,6 +145,10 @@ def step (st : Unit) (ws : List String) : Unit × String :=
     match enforced with
     | some b => (st, idx ++ (if b then " rejected" else " accepted"))
     | none => (st, idx ++ " bad-op")
+  | ["ux", idx, _fleet, _max, _rounds] =>
+    -- rounds of replies that belong to other properties (foreign id, notify flag, absurd length): what
+    -- the clients make of them is not predicted; the harness's oracles judge bound and recovery
+    (st, idx ++ " rounds ok")
   | ["cx", idx, _fleet, _max, _rounds] =>
     -- rounds of an async operation dropped at a drawn instant, then a healthy node: what the dropped
     -- operation did is not predicted; the harness's oracles judge the recovery (exercised only)
